@@ -206,6 +206,42 @@ def run(ctx):
             violations.append({"replay": rp})
             break
     cov["busy_sessions"] = len(scripts)
+    # ---- lines as BYTES: not valid UTF-8 (stray continuation bytes, truncated and overlong sequences, Latin-1 text, NUL bytes), and valid
+    # multi-byte UTF-8 in long tokens at every alignment (a diagnostic that slices a token at a fixed byte offset cuts a character in two:
+    # seeded change r7C15) — as a command, as a move, as a FEN-less position argument, as a number, as an option name.  After every line:
+    # readyok; at the end: quit, exit status 0.
+    byte_lines = [b"\xff\xfe junk", b"go depth \xc3", b"\x80\x80\x80", b"position startpos moves e2e4 \xe2\x99", b"caf\xe9", b"isready\xff",
+                  b"\xc0\xaf", b"\xf8\x88\x80\x80\x80", b"go\x00depth\x001", b"\x00", b"setoption name \xfe value \xff", b"\xed\xa0\x80"]
+    for pre in range(0, 4):
+        for ch in ("\u00e9", "\u265e", "\U0001d11e"):
+            for cnt in (39, 40, 61, 200):
+                tok = ("x" * pre + ch * cnt).encode("utf-8")
+                byte_lines += [tok, b"position startpos moves " + tok, b"position " + tok, b"go depth " + tok, b"setoption name " + tok + b" value " + tok]
+    if ctx["tier"] == "quick":
+        byte_lines = byte_lines[:12] + byte_lines[12 + ctx["seed"] % 3::3]
+    eng_b = uciproc.Engine()
+    culprit = None
+    try:
+        for raw in byte_lines:
+            eng_b.send_bytes(raw)
+            b0 = len(eng_b.lines())
+            eng_b.send("isready")
+            if eng_b.wait_for(lambda x: x == "readyok", 5, start=b0) is None:
+                culprit = raw
+                break
+        if culprit is None:
+            rc_b, _ = eng_b.finish(timeout=5)
+            if rc_b != 0:
+                culprit = b"(exit status %s after quit)" % str(rc_b).encode()
+    finally:
+        eng_b.kill()
+    cov["byte_level_lines"] = len(byte_lines)
+    if culprit is not None:
+        shown = "".join(chr(c) if 32 <= c < 127 and c != 92 else "\\x%02x" % c for c in culprit)
+        rp = C.write_replay(prop, {"kind": "a line of bytes kills or wedges the engine (no readyok afterwards)", "line_bytes_escaped": shown[:400],
+                                   "panic": [x for x in eng_b.err_lines() if "panicked" in x][:1],
+                                   "replay_cmd": "printf '%s\\nisready\\n' | (cat; sleep 1) | %s" % (shown[:400], C.ENGINE)})
+        violations.append({"replay": rp})
     # ---- every kind of move token after `position fen F moves`: all 4096 from-to strings, the suffixed and mis-suffixed
     # promotion strings, truncated / over-long / decorated forms, on positions where a promotion, a castle, an en-passant
     # capture or a check evasion is available: the engine must survive every one of them (readyok after each block)
